@@ -24,6 +24,7 @@ pub fn adversarial_alphabet(lang: &str) -> Vec<&'static str> {
         "fr" => ("a", "B", "\u{301}", "œ", "é", "e"),
         "pt" => ("a", "B", "\u{303}", "ß", "ã", "a"),
         "ru" => ("а", "Б", "\u{308}", "ß", "ё", "е"),
+        "xk" => ("か", "B", "\u{3099}", "ゟ", "が", "き"),
         _ => ("a", "B", "\u{301}", "ß", "é", "e"),
     };
     vec![letter, capital, "1", " ", "-", "'", "\0", "\u{a0}", mark, expanding, composed, base, "ǅ", "𝐀"]
@@ -90,6 +91,7 @@ fn accented_function_words(lang: &str) -> Vec<&'static str> {
         "es" => vec!["según", "más", "próximo", "vía", "Más"],
         "pt" => vec!["não", "às", "até", "além", "atrás", "porém", "então", "próximo"],
         "ru" => vec!["её", "ещё", "путём", "Путём"],
+        "xk" => vec!["が", "の", "か\u{3099}"],
         _ => vec!["the", "of", "The"],
     }
 }
@@ -117,8 +119,12 @@ impl Token {
             w
         };
         let mut titles: Vec<String> = vec![];
+        let long_titles = cx.rng.chance(1, 8);
+        if long_titles {
+            cx.count("stores with titles of 25-40 words");
+        }
         for _ in 0..cx.rng.range(1, 5) {
-            let k = cx.rng.range(1, 3);
+            let k = if long_titles { cx.rng.range(25, 40) } else { cx.rng.range(1, 3) };
             let ws: Vec<String> = (0..k)
                 .map(|_| match cx.rng.below(6) {
                     0 => cx.rng.pick(&fw).to_string(),
@@ -199,6 +205,9 @@ impl Token {
             if var == qs {
                 continue;
             }
+            if var.chars().count() > 128 {
+                cx.count("variants longer than 128 characters");
+            }
             cx.ctx(format!("C11 lang={} titles={:?} q={:?} var={:?}", lang, titles, qs, var));
             let var_res = st.search(&var);
             cx.eval();
@@ -262,14 +271,14 @@ impl Prop for Token {
     }
     fn streams(&self) -> Vec<Stream> {
         match self.0 {
-            Which::Invariants => vec![Stream::new("exhaustive", 7 * 15, 7 * 15), Stream::new("random", 32000, 1600000), Stream::new("corpus", 64, 64)],
+            Which::Invariants => vec![Stream::new("exhaustive", 8 * 15, 8 * 15), Stream::new("random", 32000, 1600000), Stream::new("corpus", 64, 64)],
             Which::Variants => vec![Stream::new("stores", 32000, 1600000)],
         }
     }
     fn floors(&self) -> Vec<(&'static str, u64, u64)> {
         match self.0 {
             Which::Invariants => vec![("exhaustive strings", 250000, 4000000), ("texts with padding", 5000, 50000), ("texts with a stemmed word", 1000, 10000), ("queries with unfinished last word", 50000, 500000), ("texts whose length changed under normalisation", 5000, 50000), ("random hostile strings", 5000, 50000), ("random texts of 100-600 symbols", 1000, 10000), ("corpus titles", 3000, 3000)],
-            Which::Variants => vec![("variants decomposed", 2000, 20000), ("variants folded", 2000, 20000), ("variants re-cased", 5000, 50000), ("variants separator prefix", 2000, 20000), ("variants of a query with hits", 5000, 50000), ("stored-decomposed comparisons", 1000, 10000)],
+            Which::Variants => vec![("variants decomposed", 2000, 20000), ("variants folded", 2000, 20000), ("variants re-cased", 5000, 50000), ("variants separator prefix", 2000, 20000), ("variants of a query with hits", 5000, 50000), ("stored-decomposed comparisons", 1000, 10000), ("variants longer than 128 characters", 300, 3000)],
         }
     }
     fn dyn_floors(&self) -> Vec<(String, u64, u64)> {
@@ -296,8 +305,8 @@ impl Prop for Token {
     fn run(&self, cx: &mut Cx, stream: &str, idx: u64) {
         match (self.0, stream) {
             (Which::Invariants, "exhaustive") => {
-                let lang = LANGS[(idx % 7) as usize];
-                let head = (idx / 7) as usize; // 0..14: first symbol, 14: the empty string
+                let lang = LANGS[(idx % NL) as usize];
+                let head = (idx / NL) as usize; // 0..14: first symbol, 14: the empty string
                 let alpha = adversarial_alphabet(lang);
                 let maxlen = if cx.tier == Tier::Thorough { 5 } else { 4 };
                 let lobj = take_lang(lang);
@@ -327,7 +336,7 @@ impl Prop for Token {
                 cx.count_n("exhaustive strings", total);
             }
             (Which::Invariants, "random") => {
-                let lang = LANGS[(idx % 7) as usize];
+                let lang = LANGS[(idx % NL) as usize];
                 let lobj = take_lang(lang);
                 let text = match cx.rng.below(9) {
                     8 => {
@@ -371,7 +380,7 @@ impl Prop for Token {
                     }
                     cx.count("corpus titles");
                 }
-                if idx < 7 {
+                if idx < NL {
                     let lang = LANGS[idx as usize];
                     let lobj = take_lang(lang);
                     for w in gen::vocab(lang) {
@@ -382,7 +391,7 @@ impl Prop for Token {
                 }
             }
             (Which::Variants, _) => {
-                let lang = LANGS[(idx % 7) as usize];
+                let lang = LANGS[(idx % NL) as usize];
                 self.variants_case(cx, lang);
             }
             _ => {}
